@@ -368,6 +368,9 @@ Section P.
       eapply post_bind_np; [np|]. intros cells.
       destruct (length cells <? len); [apply post_invalid | apply post_in_loop].
     Qed.
+    Lemma np_in_op p cs s i : np (in_op ev p cs s i).
+    Proof. eapply post_np. apply post_in_op. Qed.
+    Hint Resolve np_in_op : npdb.
     Lemma np_notin_op p cs s i : np (notin_op ev p cs s i).
     Proof.
       unfold notin_op. eapply post_bind; [apply post_in_op|].
@@ -592,5 +595,182 @@ Section P.
     Lemma np_eval_mutex p cs s i : np (eval_mutex ev p cs s i).
     Proof. unfold eval_mutex. np. Qed.
     Hint Resolve np_eval_try np_eval_func np_eval_return np_eval_mutex : npdb.
+
+    (* ---- one node *)
+    Lemma np_eval_string_lift n : np (lift (eval_string n)).
+    Proof.
+      apply np_lift. pose proof (eval_string_no_error n) as H.
+      destruct (eval_string n); cbn in *; auto.
+    Qed.
+    Hint Resolve np_eval_string_lift : npdb.
+
+    Lemma post_notguard n (m : M value) : np m -> is_name n NodeGUARD = false -> post m (Qn n).
+    Proof. intros H E. eapply post_weaken; [exact H|]. intros a _ Hg. congruence. Qed.
+
+    Ltac np2 := repeat first [np1 | apply np_num_op; intros].
+
+    Lemma eval_node_post f p n s i : post (eval_node ev f p n s i) (Qn n).
+    Proof.
+      unfold eval_node. cbv zeta.
+      repeat match goal with
+      | |- post (if String.eqb (n_name n) ?K then _ else _) _ =>
+        let E := fresh "E" in
+        destruct (String.eqb (n_name n) K) eqn:E;
+        [ first
+            [ (* the guard itself *)
+              eapply post_weaken; [apply post_eval_guard | intros a Ha _; exact Ha]
+            | apply post_notguard;
+              [ solve [np2]
+              | unfold is_name;
+                first [ assumption
+                      | apply String.eqb_eq in E; rewrite E; reflexivity ] ] ]
+        | ]
+      end.
+      apply post_notguard; [np2 | unfold is_name; assumption].
+    Qed.
   End WithEv.
+
+  Theorem eval_post : forall fuel p n s i, post (eval fuel p n s i) (Qn n).
+  Proof.
+    induction fuel as [|f IH]; intros; cbn [eval]; [apply post_fuel|].
+    apply eval_node_post. exact IH.
+  Qed.
+
+  Theorem eval_no_panic : forall fuel p n s i st site, fst (eval fuel p n s i st) <> RPanic site.
+  Proof.
+    intros fuel p n s i st site H. pose proof (eval_post fuel p n s i st) as P.
+    rewrite H in P. exact P.
+  Qed.
+
+  Theorem run_no_panic : forall fuel t site, fst (run fuel t) <> RPanic site.
+  Proof.
+    intros fuel t site. unfold run. destruct (validate t); cbn; try discriminate.
+    apply eval_no_panic.
+  Qed.
+
+  (* ---------------------------------------------------------------- errors are catchable *)
+  (* [ne m]: m never ends in an error value (bookkeeping operations of the runtime) *)
+  Definition ne {A} (m : M A) : Prop := forall st e, fst (m st) <> RErr e.
+  Lemma ne_ret {A} (a : A) : ne (ret a).
+  Proof. intros st e. discriminate. Qed.
+  Lemma ne_invalid {A} w : ne (@invalid _ A w).
+  Proof. intros st e. discriminate. Qed.
+  Lemma ne_get_st : ne get_st.
+  Proof. intros st e. discriminate. Qed.
+  Lemma ne_put_st s : ne (put_st s).
+  Proof. intros st e. discriminate. Qed.
+  Lemma ne_of_opt {A} w (o : option A) : ne (of_opt w o).
+  Proof. destruct o; [apply ne_ret | apply ne_invalid]. Qed.
+  Lemma ne_bind {A B} (m : M A) (f : A -> M B) : ne m -> (forall a, ne (f a)) -> ne (bind m f).
+  Proof.
+    intros Hm Hf st e. unfold bind. specialize (Hm st).
+    destruct (m st) as [r st1]. destruct r as [a|e1|?| |?|?]; cbn in *; try discriminate.
+    - apply Hf.
+    - intros H. apply (Hm e1). reflexivity.
+  Qed.
+  Lemma ne_attempt {A} (m : M A) : ne (attempt m).
+  Proof. intros st e. unfold attempt. destruct (m st) as [r st1]. destruct r; discriminate. Qed.
+  Ltac ne :=
+    repeat first [ apply ne_ret | apply ne_invalid | apply ne_get_st | apply ne_put_st | apply ne_of_opt
+                 | apply ne_attempt | apply ne_bind; [|intro]
+                 | match goal with |- ne (match ?x with _ => _ end) => destruct x end ].
+  Lemma ne_new_child s k : ne (new_child s k).
+  Proof. unfold new_child, get_scope, alloc_scope, set_scope. ne. Qed.
+  Lemma ne_make_errobj e : ne (make_errobj e).
+  Proof. unfold make_errobj, alloc_map. ne. Qed.
+
+  Lemma bind_err_inv {A B} (m : M A) (f : A -> M B) st e st' :
+    bind m f st = (RErr e, st') ->
+    m st = (RErr e, st') \/ exists a st1, m st = (ROk a, st1) /\ f a st1 = (RErr e, st').
+  Proof.
+    unfold bind. destruct (m st) as [r st1]. destruct r; intros H; try discriminate.
+    - right. eauto.
+    - left. injection H as -> ->. reflexivity.
+  Qed.
+  Lemma bind_ok_inv {A B} (m : M A) (f : A -> M B) st b st' :
+    bind m f st = (ROk b, st') ->
+    exists a st1, m st = (ROk a, st1) /\ f a st1 = (ROk b, st').
+  Proof.
+    unfold bind. destruct (m st) as [r st1]. destruct r; intros H; try discriminate. eauto.
+  Qed.
+  Lemma bind_ne_inv {A B} (m : M A) (f : A -> M B) st e st' :
+    ne m -> bind m f st = (RErr e, st') ->
+    exists a st1, m st = (ROk a, st1) /\ f a st1 = (RErr e, st').
+  Proof.
+    intros Hne H. apply bind_err_inv in H. destruct H as [H|H]; [|exact H].
+    exfalso. apply (Hne st e). rewrite H. reflexivity.
+  Qed.
+
+  (* try { body } except { handler }: an error of the try statement is a flow signal of the body
+     (return / break / continue, which are not failures) or an error of the HANDLER *)
+  Lemma try_main_bare_except (ev : evalT) p body xv xi xa xl sv si sa sl hs sc is st e st' :
+    let handler := Node NodeSTATEMENTS sv si sa sl hs in
+    let exc := Node NodeEXCEPT xv xi xa xl [handler] in
+    try_main ev p body [exc] sc is st = (RErr e, st') ->
+    is_flow e = true \/
+    exists evs st1 st2, ev (0 :: 1 :: p) handler evs is st1 = (RErr e, st2).
+  Proof.
+    intros handler exc H. unfold try_main in H.
+    apply bind_ne_inv in H; [|apply ne_new_child]. destruct H as (tvs & st1 & _ & H).
+    apply bind_ne_inv in H; [|apply ne_attempt]. destruct H as (r & st2 & _ & H).
+    destruct r as [v|e0].
+    - (* the body succeeded: there is no otherwise clause *)
+      cbn in H. discriminate.
+    - destruct (is_flow e0) eqn:Ef.
+      + left. cbn in H. injection H as <- _. exact Ef.
+      + right.
+        apply bind_ne_inv in H; [|apply ne_make_errobj]. destruct H as (eo & st3 & _ & H).
+        change (try_excepts ev p 1 [exc] sc is e0 eo) with
+          (bind (except_kids ev (1 :: p) 0 [handler] sc is eo (err_type_text e0) false false [] None)
+                (fun h => if fst h then match snd h with None => ret VNull | Some ne0 => fail ne0 end
+                          else fail e0)) in H.
+        change (except_kids ev (1 :: p) 0 [handler] sc is eo (err_type_text e0) false false [] None) with
+          (bind (new_child sc (1 :: p)) (fun evs =>
+             bind (ret tt) (fun _ =>
+               bind (attempt (ev (0 :: 1 :: p) handler evs is)) (fun b =>
+                 ret (true, match b with inl _ => None | inr e1 => Some e1 end))))) in H.
+        apply bind_err_inv in H. destruct H as [H|(h & st4 & H1 & H)].
+        * exfalso. revert H. apply (fun X => X).
+          intros H. apply bind_ne_inv in H; [|apply ne_new_child]. destruct H as (evs & st5 & _ & H).
+          cbn in H. unfold bind, attempt in H.
+          destruct (ev (0 :: 1 :: p) handler evs is st5) as [r5 st6]; destruct r5; discriminate.
+        * apply bind_ok_inv in H1. destruct H1 as (evs & st5 & _ & H1).
+          exists evs, st5.
+          cbn in H1. unfold bind, attempt in H1.
+          destruct (ev (0 :: 1 :: p) handler evs is st5) as [r5 st6] eqn:E5.
+          destruct r5; try discriminate; injection H1 as <- <-; cbn in H; try discriminate.
+          injection H as <- _. eauto.
+  Qed.
+
+  Definition try_node tv ti ta tl (kids : list node) : node := Node NodeTRY tv ti ta tl kids.
+
+  Lemma eval_try_node f p tv ti ta tl body xv xi xa xl hkids sc is :
+    eval (S f) p (try_node tv ti ta tl [body; Node NodeEXCEPT xv xi xa xl hkids]) sc is =
+    try_main (eval f) p body [Node NodeEXCEPT xv xi xa xl hkids] sc is.
+  Proof. reflexivity. Qed.
+
+  Theorem try_contains_every_failure :
+    forall fuel p tv ti ta tl body xv xi xa xl sv si sa sl hs sc is st e st',
+      let handler := Node NodeSTATEMENTS sv si sa sl hs in
+      eval fuel p (try_node tv ti ta tl [body; Node NodeEXCEPT xv xi xa xl [handler]]) sc is st = (RErr e, st') ->
+      is_flow e = true \/
+      exists f evs st1 st2, fuel = S f /\ eval f (0 :: 1 :: p) handler evs is st1 = (RErr e, st2).
+  Proof.
+    intros fuel p tv ti ta tl body xv xi xa xl sv si sa sl hs sc is st e st' handler H.
+    destruct fuel as [|f]; [discriminate|].
+    rewrite eval_try_node in H. apply try_main_bare_except in H.
+    destruct H as [H|(evs & st1 & st2 & H)]; [left; exact H | right; eauto 8].
+  Qed.
+
+  (* try { body } except { }: whatever the body is, no failure leaves the statement *)
+  Theorem errors_catchable :
+    forall fuel p tv ti ta tl body xv xi xa xl sv si sa sl sc is st e st',
+      eval fuel p (try_node tv ti ta tl [body; Node NodeEXCEPT xv xi xa xl [Node NodeSTATEMENTS sv si sa sl []]])
+           sc is st = (RErr e, st') ->
+      is_flow e = true.
+  Proof.
+    intros until st'. intros H. apply try_contains_every_failure in H.
+    destruct H as [H|(f & evs & st1 & st2 & -> & H)]; [exact H|].
+    exfalso. destruct f; discriminate.
+  Qed.
 End P.
